@@ -13,3 +13,5 @@ INVARIANT EveryAmpConfiguredInv
 INVARIANT EveryFiberHasConnectorsInv
 INVARIANT SpanAtLeastPaddingInv
 INVARIANT UserAttenuatorKeptInv
+INVARIANT VoaIsAttenuationInv
+INVARIANT NoInsertionWhenNotAskedInv
